@@ -94,7 +94,8 @@ let harm lmax file =
        | "dir" :: _ :: xs :: ps :: vals ->
          let x = float_of_string xs and phi = float_of_string ps in
          let vals = Array.of_list (List.map float_of_string vals) in
-         let s = sqrt (Float.max 0.0 (1.0 -. x *. x)) in
+         (* sin(theta) for the double x = cos(theta): (1-x)(1+x) keeps full relative accuracy near the poles, 1 - x*x does not *)
+         let s = sqrt (Float.max 0.0 ((1.0 -. x) *. (1.0 +. x))) in
          let px = s *. cos phi and py = s *. sin phi and pz = x in
          let pw b e = let r = ref 1.0 in for _ = 1 to int_of_nat e do r := !r *. b done; !r in
          let idx = ref 0 in
